@@ -51,6 +51,7 @@ def dispatch : Sexp → Except String Sexp
   | .list [.atom "reader.read", .str content, .list (.atom "events" :: evs)] => ReaderOps.readOp content evs
   | .list [.atom "uri.keyToUrl", .str b, .str k] => .ok (UriOps.keyToUrlOp b k)
   | .list [.atom "uri.urlToKey", .str b, .str u] => .ok (UriOps.urlToKeyOp b u)
+  | .list [.atom "uri.definition", .str b, .str k, .str u] => .ok (UriOps.definitionOp b k u)
   | .list [.atom "uri.safeKey", .str k] => .ok (.atom (if UriOps.safeKey k then "true" else "false"))
   | other => .error s!"unknown request {other.toStr.take 80}"
 
